@@ -135,6 +135,7 @@ type nondetRec struct {
 	Conc     uint64
 	Kind     string
 	Internal bool // engine-only input (not consumed by the native harness)
+	Bytes    int  // >0: wide variable standing for this many native byte inputs
 }
 
 type observeRec struct {
@@ -532,6 +533,7 @@ func (w *worker) runPath(prefix []int) {
 	ex.mu.Unlock()
 
 	i := w.newInterp(prefix)
+	w.ts.NonRange = map[int]bool{}
 	w.solver.Reset()
 	w.solver.Push()
 	if w.cross != nil {
@@ -672,6 +674,14 @@ func (i *interpreter) vector(extra *Term) (vec []uint64, names []string, ok bool
 	for _, n := range i.nondets {
 		var val uint64
 		if n.Term != nil {
+			if n.Bytes > 0 {
+				for _, b := range expandWide(vals[k], n.Bytes) {
+					names = append(names, n.Name)
+					vec = append(vec, b)
+				}
+				k++
+				continue
+			}
 			val = vals[k].Uint64()
 			k++
 		} else {
